@@ -125,6 +125,8 @@ class Universe:
             k = self.kf(self.make(s))
             if k not in self.keys:
                 self.keys.append(k)
+        # absent probes: an ordinary one and a falsy one (which a key function that indexes its argument cannot key)
+        self.absent_keys = [k for k in ("zz", "") if k not in self.keys]
 
     def new_set(self, items, flag=None):
         cls = self.KeyedSet[self.typed] if self.typed else self.KeyedSet
@@ -453,7 +455,7 @@ def all_ops(U, operand_limit=None, rng=None):
         ops.append(("remove", (("item", i),)))
     for j in range(len(U.bad)):
         ops.append(("add", (("bad", j),)))
-    for k in list(U.keys) + [U.absent_key]:
+    for k in list(U.keys) + U.absent_keys:
         ops.append(("discard", (("key", k),)))
         ops.append(("remove", (("key", k),)))
     ops += [("pop", ()), ("clear", ())]
@@ -502,7 +504,7 @@ def arg_class(U, op):
     if a[0] == "operand":
         return f"{a[1]}{len(a[2])}"
     if a[0] == "key":
-        return "absent_key" if a[1] == U.absent_key else "key"
+        return "absent_key" if a[1] in U.absent_keys else "key"
     return a[0]
 
 
@@ -675,7 +677,7 @@ def judge_constructions(ctx, U, probes):
 def run(ctx, params):
     U = Universe(params["universe"], params["flag"])
     rng = ctx.rng
-    probes = {"keys": list(U.keys) + [U.absent_key], "items": [U.make(s) for s in U.specs]}
+    probes = {"keys": list(U.keys) + U.absent_keys, "items": [U.make(s) for s in U.specs]}
     if params["mode"] == "exh" and params.get("part", 0) == 0:
         judge_constructions(ctx, U, probes)
     if params["mode"] == "exh":
